@@ -94,8 +94,8 @@ theorem C18_R1_parsed {fs : Files} {la lb : List Str} {pa pb : List Stmt} {D : N
     rw [stA.haddr] at has
     cases has
     exact hpw
-  have fA := fixAll_pw stA.hfix
-  have fB := fixAll_pw stB.hfix
+  have fA := fixAllL_pw stA.hfix
+  have fB := fixAllL_pw stB.hfix
   refine ⟨by rw [fA.1, ← hshift.1, fB.1], ?_⟩
   intro i s t n hs ht hn
   obtain ⟨s4, hs4, v, rfl⟩ := fA.get' hs
@@ -139,6 +139,49 @@ theorem fixFit_org (ss : List Stmt) (i : Nat) {s : Stmt} (hrow : s.row ∈ Gen.i
   unfold fitSkipped at this
   rw [if_pos this]
 
+/-- `ORG` has no operand field: `translate` leaves `additional` empty -/
+theorem translate_org_additional {o : Operand} {row : Gen.InstrRow} {p : Pkg} (hk : o.kind = .pseudo)
+    (hm : row.mnemonic = "ORG") (h : translateOperand o row = .ok p) : p.additional = .none := by
+  unfold translateOperand at h
+  rw [hk] at h
+  dsimp only at h
+  unfold translatePseudo at h
+  have e1 : (("ORG" : String) == "FCB") = false := by decide
+  have e2 : (("ORG" : String) == "FDB") = false := by decide
+  have e3 : (("ORG" : String) == "RMB") = false := by decide
+  have e4 : (("ORG" : String) == "ORG") = true := by decide
+  simp only [hm, e1, e2, e3, e4, bind, Except.bind, pure, Except.pure, throw, throwThe, MonadExceptOf.throw,
+    Bool.false_eq_true, if_false, if_true] at h
+  repeat' split at h
+  all_goals first | (cases h; done) | (cases h; rfl)
+
+/-- (model batch 8) an ORG statement that enters `fixAll` in an accepted run has an empty operand field (so the list pass
+leaves it alone) -/
+theorem stages_org_additional {fs : Files} {lines : List Str} {A : Assembly} (st : Stages fs lines A) {i : Nat}
+    {s4 t : Stmt} (h4 : st.ss4[i]? = some s4) (ht : A.stmts[i]? = some t) (hm : s4.row.mnemonic = "ORG")
+    (hk : s4.operand.kind = .pseudo) : s4.pkg.additional = .none := by
+  obtain ⟨tr⟩ := st.trace ht
+  have e4 : tr.s4 = s4 := by have := tr.h4; rw [h4] at this; cases this; rfl
+  obtain ⟨_, _, _, _, _, h3⟩ := tr.pcr
+  obtain ⟨_, h4'⟩ := tr.addr
+  have hrow : s4.row = tr.s0.row := by
+    rw [← e4]
+    have e1 := congrArg Stmt.row h4'
+    have e2 := congrArg Stmt.row h3
+    exact e1.trans e2
+  have hop : s4.operand = tr.o := by
+    rw [← e4]
+    have e1 := congrArg Stmt.operand h4'
+    have e2 := congrArg Stmt.operand h3
+    exact e1.trans e2
+  have hadd : s4.pkg.additional = tr.p.additional := by
+    rw [← e4]
+    have e1 := congrArg (fun s : Stmt => s.pkg.additional) h4'
+    have e2 := congrArg (fun s : Stmt => s.pkg.additional) h3
+    exact e1.trans e2
+  rw [hadd]
+  exact translate_org_additional (by rw [← hop]; exact hk) (by rw [← hrow]; exact hm) tr.htr
+
 /-- the ORG bound used at value level -/
 def OrgOk (D : Nat) (n : Nat) : Prop := 256 ≤ n ∧ n + D < 65536
 
@@ -157,7 +200,7 @@ theorem C18_R1_parsed_code {fs : Files} {la lb : List Str} {pa pb : List Stmt} {
     (stA : Stages fs la A) (stB : Stages fs lb B) :
     stB.t = stA.t ∧ PW (AddrShift D) stA.ss4 stB.ss4 ∧ PW (AddrShift D) A.stmts B.stmts ∧
     (∀ (i : Nat) (s4 t t' : Stmt), stA.ss4[i]? = some s4 → A.stmts[i]? = some t → B.stmts[i]? = some t' →
-      (Unmoved D stA.ss4 s4 → t'.pkg.additional = t.pkg.additional ∧ stmtBytes t' = stmtBytes t) ∧
+      (Unmoved D stA.ss4 s4 → ListsConst stA.t s4 → t'.pkg.additional = t.pkg.additional ∧ stmtBytes t' = stmtBytes t) ∧
       (Moved D stA.ss4 s4 → t'.pkg.additional = shiftV D t.pkg.additional ∧
         ∀ bs, stmtBytes t = some bs →
           ∃ pre x, t.pkg.additional.int? = some x ∧ x + D < 65536 ∧ bs = pre ++ [x / 256, x % 256] ∧
@@ -201,41 +244,55 @@ theorem C18_R1_parsed_code {fs : Files} {la lb : List Str} {pa pb : List Stmt} {
     obtain ⟨s', _, hr⟩ := h3.get hj
     exact hr.orgWide
   have hshiftI : PW (AddrShiftI D) stA.ss4 stB.ss4 := hshift.mono (fun _ _ => AddrShift.toI)
-  have fA := fixAll_ok stA.hfix
-  have fB := fixAll_ok stB.hfix
+  have htt := ht
+  obtain ⟨x5, _, lA, fA⟩ := fixAllL_steps stA.hfix
+  obtain ⟨x5', _, lB, fB⟩ := fixAllL_steps stB.hfix
+  have hss : ∀ j v, addrOf stA.ss4 j = some v → v.isNumeric = true := addrOf_numeric hshift
   have kA := assignAddrs_keep stA.haddr
   have kB := assignAddrs_keep stB.haddr
   -- per statement
   have key : ∀ (i : Nat) (s4 t t' : Stmt), stA.ss4[i]? = some s4 → A.stmts[i]? = some t → B.stmts[i]? = some t' →
       AddrShift D t t' ∧
-      (Unmoved D stA.ss4 s4 → t'.pkg.additional = t.pkg.additional ∧ stmtBytes t' = stmtBytes t) ∧
+      (Unmoved D stA.ss4 s4 → ListsConst stA.t s4 → t'.pkg.additional = t.pkg.additional ∧ stmtBytes t' = stmtBytes t) ∧
       (Moved D stA.ss4 s4 → t'.pkg.additional = shiftV D t.pkg.additional ∧
         ∀ bs, stmtBytes t = some bs →
           ∃ pre x, t.pkg.additional.int? = some x ∧ x + D < 65536 ∧ bs = pre ++ [x / 256, x % 256] ∧
             stmtBytes t' = some (pre ++ [(x + D) / 256, (x + D) % 256])) := by
     intro i s4 t t' hs4 ht ht'
     obtain ⟨s4', hs4', hsh⟩ := hshift.get hs4
-    obtain ⟨u, hu, hfu⟩ := fA.2 i s4 hs4
-    obtain ⟨u', hu', hfu'⟩ := fB.2 i s4' hs4'
-    simp only [Nat.zero_add] at hfu hfu'
-    rw [ht] at hu; cases hu
-    rw [ht'] at hu'; cases hu'
+    obtain ⟨u, t0, hfu, ht0, hlu⟩ := fA i s4 hs4
+    obtain ⟨u', t0', hfu', ht0', hlu'⟩ := fB i s4' hs4'
+    rw [ht] at ht0; cases ht0
+    rw [ht'] at ht0'; cases ht0'
+    rw [htt] at hlu'
     obtain ⟨s3, hs3, ⟨v, hv⟩, hkeep⟩ := kA.get' hs4
     obtain ⟨s3', hs3', ⟨v', hv'⟩, hkeep'⟩ := kB.get' hs4'
     obtain ⟨w, hw⟩ := fixFit_keeps hfu
     obtain ⟨w', hw'⟩ := fixFit_keeps hfu'
-    have hT : AddrShift D t t' := by rw [hw, hw']; exact ⟨hsh.1, hsh.2⟩
+    obtain ⟨z, hz⟩ := evalList1_same hlu
+    obtain ⟨z', hz'⟩ := evalList1_same hlu'
+    have hT : AddrShift D t t' := by rw [hz, hz', hw, hw']; exact ⟨hsh.1, hsh.2⟩
     refine ⟨hT, ?_⟩
     rcases h3.2 i s3 s3' hs3 hs3' with ⟨rfl, _, _⟩ | ⟨hin, hm, hn, hk, hk', hnum, hnum', n, _, ha, ha'⟩
     · have he : s4' = s4.setAddress s4'.pkg.address := by rw [hv, hv']; rfl
       constructor
-      · intro hc
-        obtain ⟨e, hb⟩ := reloc_bytes_unmoved' hshiftI he hc hfu hfu'
-        exact ⟨by rw [e]; rfl, hb⟩
+      · intro hc hlc
+        obtain ⟨e, _⟩ := reloc_bytes_unmoved' hshiftI he hc hfu hfu'
+        have hau : u'.pkg.address = s4'.pkg.address := by rw [e]; rfl
+        have e' : u' = u.setAddress u'.pkg.address := by rw [hau]; exact e
+        have e2 := reloc_list_unmoved e' (fixFit_listsConst hss hfu hlc) hlu hlu'
+        refine ⟨by rw [e2]; rfl, ?_⟩
+        rw [e2, stmtBytes_setAddress]
       · intro hc
         have hmv := reloc_fixFit_moved' hshift he hc (i := i)
         rw [hfu, hfu'] at hmv
         simp only [Outcome.map_ok, Outcome.ok.injEq] at hmv
+        have hnu : u.pkg.additional.isNumeric = true := by
+          obtain ⟨a, hh, m, e1, _⟩ := fixFit_moved_wide hshift i hc hfu
+          rw [e1]; rfl
+        have hnu' : u'.pkg.additional.isNumeric = true := by rw [hmv]; exact shiftV_numeric' hnu
+        rw [evalList1_numeric _ _ hnu] at hlu; cases hlu
+        rw [evalList1_numeric _ _ hnu'] at hlu'; cases hlu'
         refine ⟨by rw [hmv]; rfl, ?_⟩
         intro bs hbs
         exact (reloc_bytes_moved' hshift he hc hfu hfu' hbs).2
@@ -245,16 +302,22 @@ theorem C18_R1_parsed_code {fs : Files} {la lb : List Str} {pa pb : List Stmt} {
       subst e4 e4'
       have hrow : s4.row ∈ Gen.instructions := by
         have := stA.row_mem ht
-        rw [hw] at this; exact this
+        rw [hz, hw] at this; exact this
       have hrow' : s4'.row ∈ Gen.instructions := by
         have := stB.row_mem ht'
-        rw [hw'] at this; exact this
+        rw [hz', hw'] at this; exact this
       rw [fixFit_org _ _ hrow hm hk hnum hn] at hfu
       rw [fixFit_org _ _ hrow' (by rw [hin]; simpa using hm) hk' hnum' (by rw [hin]; simpa using hn)] at hfu'
       cases hfu; cases hfu'
+      -- an ORG statement has no operand field: the list pass leaves it alone
+      have hadd : s4.pkg.additional = .none := stages_org_additional stA hs4 ht hm hk
+      have hadd' : s4'.pkg.additional = .none := by rw [hin]; simpa using hadd
+      rw [evalList1_keep _ _ (by rw [hadd]; intro hs e; cases e) (by rw [hadd]; intro hs e; cases e)] at hlu
+      rw [evalList1_keep _ _ (by rw [hadd']; intro hs e; cases e) (by rw [hadd']; intro hs e; cases e)] at hlu'
+      cases hlu; cases hlu'
       have eadd : t'.pkg.additional = s4.pkg.additional := by rw [hin]; simp
       constructor
-      · intro _
+      · intro _ _
         refine ⟨eadd, ?_⟩
         unfold stmtBytes
         rw [eadd, show t'.pkg.opCode = s4.pkg.opCode by rw [hin]; simp,
@@ -264,17 +327,15 @@ theorem C18_R1_parsed_code {fs : Files} {la lb : List Str} {pa pb : List Stmt} {
           rcases hv with ⟨tg, m, hv⟩ | ⟨l, r, op, m, k, hh, mm, nn, hv, _⟩ <;> rw [hv] at hnum <;> cases hnum
         · rw [hn] at hn'; cases hn'
   have hfinal : PW (AddrShift D) A.stmts B.stmts := by
-    have lA := fA.1
-    have lB := fB.1
     refine ⟨by rw [lA, lB, hshift.1], ?_⟩
     intro i t t' ht ht'
-    obtain ⟨s4, hs4, _⟩ := (fixAll_pw stA.hfix).get' ht
+    obtain ⟨s4, hs4, _⟩ := (fixAllL_pw stA.hfix).get' ht
     exact (key i s4 t t' hs4 ht ht').1
   refine ⟨ht, hshift, hfinal, fun i s4 t t' a b c => (key i s4 t t' a b c).2, ?_⟩
   intro j k v hj hc
   have hB := stB.heval
   rw [ht] at hB
-  obtain ⟨x, x', hx, hx', hrel⟩ := symtab_reloc_entry hshiftI (fixAll_sameAddr stA.hfix) (fixAll_sameAddr stB.hfix)
+  obtain ⟨x, x', hx, hx', hrel⟩ := symtab_reloc_entry hshiftI (fixAllL_sameAddr stA.hfix) (fixAllL_sameAddr stB.hfix)
     hfinal stA.heval hB stA.hfinal stB.hfinal hj
   refine ⟨(k, x), hx, ?_⟩
   rw [hx']
@@ -299,8 +360,8 @@ theorem C18_R1_parsed_equ {fs : Files} {la lb : List Str} {pa pb : List Stmt} {D
   intro j k v hj
   have hB := stB.heval
   rw [ht] at hB
-  exact symtab_reloc_entry (hshift.mono (fun _ _ => AddrShift.toI)) (fixAll_sameAddr stA.hfix)
-    (fixAll_sameAddr stB.hfix) hfinal stA.heval hB stA.hfinal stB.hfinal hj
+  exact symtab_reloc_entry (hshift.mono (fun _ _ => AddrShift.toI)) (fixAllL_sameAddr stA.hfix)
+    (fixAllL_sameAddr stB.hfix) hfinal stA.heval hB stA.hfinal stB.hfinal hj
 
 /-! ## the third class (`MovedMod`, repair batch B2): `label ± N` with a SIGNED constant, modulo `$10000` -/
 
@@ -342,18 +403,26 @@ theorem C18_R1_parsed_code_mod {fs : Files} {la lb : List Str} {pa pb : List Stm
   have hshift := (C18_R1_parsed_code hpa hpb hrel hinc hhead stA stB).2.1
   have hshiftI : PW (AddrShiftI D) stA.ss4 stB.ss4 := hshift.mono (fun _ _ => AddrShift.toI)
   obtain ⟨s4', hs4', _⟩ := hshift.get hs4
-  obtain ⟨u, hu, hfu⟩ := (fixAll_ok stA.hfix).2 i s4 hs4
-  obtain ⟨u', hu', hfu'⟩ := (fixAll_ok stB.hfix).2 i s4' hs4'
-  simp only [Nat.zero_add] at hfu hfu'
-  rw [ht] at hu; cases hu
-  rw [ht'] at hu'; cases hu'
+  obtain ⟨x5, _, _, fA⟩ := fixAllL_steps stA.hfix
+  obtain ⟨x5', _, _, fB⟩ := fixAllL_steps stB.hfix
+  obtain ⟨u, t0, hfu, ht0, hlu⟩ := fA i s4 hs4
+  obtain ⟨u', t0', hfu', ht0', hlu'⟩ := fB i s4' hs4'
+  rw [ht] at ht0; cases ht0
+  rw [ht'] at ht0'; cases ht0'
   have hnum := hc.not_numeric
   have he := reloc_ss4_same hpa hpb hrel hinc stA stB hs4 hs4' hnum
+  have hmv := reloc_fixFit_movedMod' hshiftI he hc (i := i)
+  rw [hfu, hfu'] at hmv
+  simp only [Outcome.map_ok, Outcome.ok.injEq] at hmv
+  -- the field holds a number: the list pass leaves the statement alone
+  have hnu : u.pkg.additional.isNumeric = true := by
+    obtain ⟨x, _, e1, _⟩ := fixFit_movedMod_aux hshiftI i hc
+    rw [e1] at hfu; cases hfu; rfl
+  have hnu' : u'.pkg.additional.isNumeric = true := by rw [hmv]; exact shiftVmod_numeric hnu
+  rw [evalList1_numeric _ _ hnu] at hlu; cases hlu
+  rw [evalList1_numeric _ _ hnu'] at hlu'; cases hlu'
   constructor
-  · have hmv := reloc_fixFit_movedMod' hshiftI he hc (i := i)
-    rw [hfu, hfu'] at hmv
-    simp only [Outcome.map_ok, Outcome.ok.injEq] at hmv
-    rw [hmv]; rfl
+  · rw [hmv]; rfl
   · intro bs hbs
     exact (reloc_bytes_movedMod' hshiftI he hc hfu hfu' hbs).2
 
@@ -374,17 +443,25 @@ theorem C18_R1_parsed_code_neg {fs : Files} {la lb : List Str} {pa pb : List Stm
   have hshift := (C18_R1_parsed_code hpa hpb hrel hinc hhead stA stB).2.1
   have hshiftI : PW (AddrShiftI D) stA.ss4 stB.ss4 := hshift.mono (fun _ _ => AddrShift.toI)
   obtain ⟨s4', hs4', _⟩ := hshift.get hs4
-  obtain ⟨u, hu, hfu⟩ := (fixAll_ok stA.hfix).2 i s4 hs4
-  obtain ⟨u', hu', hfu'⟩ := (fixAll_ok stB.hfix).2 i s4' hs4'
-  simp only [Nat.zero_add] at hfu hfu'
-  rw [ht] at hu; cases hu
-  rw [ht'] at hu'; cases hu'
+  obtain ⟨x5, _, _, fA⟩ := fixAllL_steps stA.hfix
+  obtain ⟨x5', _, _, fB⟩ := fixAllL_steps stB.hfix
+  obtain ⟨u, t0, hfu, ht0, hlu⟩ := fA i s4 hs4
+  obtain ⟨u', t0', hfu', ht0', hlu'⟩ := fB i s4' hs4'
+  rw [ht] at ht0; cases ht0
+  rw [ht'] at ht0'; cases ht0'
   have he := reloc_ss4_same hpa hpb hrel hinc stA stB hs4 hs4' hc.not_numeric
+  have hmv := reloc_fixFit_movedNeg' hshiftI he hc (i := i)
+  rw [hfu, hfu'] at hmv
+  simp only [Outcome.map_ok, Outcome.ok.injEq] at hmv
+  -- the field holds a number: the list pass leaves the statement alone
+  have hnu : u.pkg.additional.isNumeric = true := by
+    obtain ⟨x, _, e1, _⟩ := fixFit_movedNeg_aux (D := D) hshiftI i hc
+    rw [e1] at hfu; cases hfu; rfl
+  have hnu' : u'.pkg.additional.isNumeric = true := by rw [hmv]; exact shiftVneg_numeric hnu
+  rw [evalList1_numeric _ _ hnu] at hlu; cases hlu
+  rw [evalList1_numeric _ _ hnu'] at hlu'; cases hlu'
   constructor
-  · have hmv := reloc_fixFit_movedNeg' hshiftI he hc (i := i)
-    rw [hfu, hfu'] at hmv
-    simp only [Outcome.map_ok, Outcome.ok.injEq] at hmv
-    rw [hmv]; rfl
+  · rw [hmv]; rfl
   · intro bs hbs
     exact (reloc_bytes_movedNeg' hshiftI he hc hfu hfu' hbs).2
 
@@ -455,7 +532,8 @@ symbol operands (`resolve_symbols` looks up the operands of FCB, FDB, RMB, ORG o
 rejected by `translate`), and so do the special instructions (PSHS, TFR, ...) -/
 theorem stages_refFitted {fs : Files} {lines : List Str} {A : Assembly} (st : Stages fs lines A) {i : Nat} {s4 : Stmt}
     (h4 : st.ss4[i]? = some s4) : RefFitted s4 := by
-  obtain ⟨u, hu, _⟩ := (fixAll_ok st.hfix).2 i s4 h4
+  obtain ⟨_, _, _, f⟩ := fixAllL_steps st.hfix
+  obtain ⟨_, u, _, hu, _⟩ := f i s4 h4
   obtain ⟨tr⟩ := st.trace hu
   have e4 : tr.s4 = s4 := by have := tr.h4; rw [h4] at this; cases this; rfl
   have hrow : s4.row = tr.s0.row := by
@@ -532,7 +610,7 @@ theorem C18_R1_parsed_code_any {fs : Files} {la lb : List Str} {pa pb : List Stm
     (stA : Stages fs la A) (stB : Stages fs lb B) :
     stB.t = stA.t ∧ PW (AddrShiftAny D) stA.ss4 stB.ss4 ∧ PW (AddrShiftAny D) A.stmts B.stmts ∧
     (∀ (i : Nat) (s4 t t' : Stmt), stA.ss4[i]? = some s4 → A.stmts[i]? = some t → B.stmts[i]? = some t' →
-      (Unmoved D stA.ss4 s4 → t'.pkg.additional = t.pkg.additional ∧ stmtBytes t' = stmtBytes t) ∧
+      (Unmoved D stA.ss4 s4 → ListsConst stA.t s4 → t'.pkg.additional = t.pkg.additional ∧ stmtBytes t' = stmtBytes t) ∧
       (Moved D stA.ss4 s4 → t'.pkg.additional = shiftV D t.pkg.additional ∧
         ∀ bs, stmtBytes t = some bs →
           ∃ pre x, t.pkg.additional.int? = some x ∧ x + D < 65536 ∧ bs = pre ++ [x / 256, x % 256] ∧
@@ -575,42 +653,56 @@ theorem C18_R1_parsed_code_any {fs : Files} {la lb : List Str} {pa pb : List Stm
     obtain ⟨s', _, hr⟩ := h3.get hj
     exact hr.orgWide
   have hshiftI : PW (AddrShiftI D) stA.ss4 stB.ss4 := hshift.mono (fun _ _ => AddrShiftAny.toI)
-  have fA := fixAll_ok stA.hfix
-  have fB := fixAll_ok stB.hfix
+  have htt := ht
+  obtain ⟨x5, _, lA, fA⟩ := fixAllL_steps stA.hfix
+  obtain ⟨x5', _, lB, fB⟩ := fixAllL_steps stB.hfix
+  have hss : ∀ j v, addrOf stA.ss4 j = some v → v.isNumeric = true := addrOf_numeric_any hshift
   have kA := assignAddrs_keep stA.haddr
   have kB := assignAddrs_keep stB.haddr
   -- per statement
   have key : ∀ (i : Nat) (s4 t t' : Stmt), stA.ss4[i]? = some s4 → A.stmts[i]? = some t → B.stmts[i]? = some t' →
       AddrShiftAny D t t' ∧
-      (Unmoved D stA.ss4 s4 → t'.pkg.additional = t.pkg.additional ∧ stmtBytes t' = stmtBytes t) ∧
+      (Unmoved D stA.ss4 s4 → ListsConst stA.t s4 → t'.pkg.additional = t.pkg.additional ∧ stmtBytes t' = stmtBytes t) ∧
       (Moved D stA.ss4 s4 → t'.pkg.additional = shiftV D t.pkg.additional ∧
         ∀ bs, stmtBytes t = some bs →
           ∃ pre x, t.pkg.additional.int? = some x ∧ x + D < 65536 ∧ bs = pre ++ [x / 256, x % 256] ∧
             stmtBytes t' = some (pre ++ [(x + D) / 256, (x + D) % 256])) := by
     intro i s4 t t' hs4 ht ht'
     obtain ⟨s4', hs4', hsh⟩ := hshift.get hs4
-    obtain ⟨u, hu, hfu⟩ := fA.2 i s4 hs4
-    obtain ⟨u', hu', hfu'⟩ := fB.2 i s4' hs4'
-    simp only [Nat.zero_add] at hfu hfu'
-    rw [ht] at hu; cases hu
-    rw [ht'] at hu'; cases hu'
+    obtain ⟨u, t0, hfu, ht0, hlu⟩ := fA i s4 hs4
+    obtain ⟨u', t0', hfu', ht0', hlu'⟩ := fB i s4' hs4'
+    rw [ht] at ht0; cases ht0
+    rw [ht'] at ht0'; cases ht0'
+    rw [htt] at hlu'
     obtain ⟨s3, hs3, ⟨v, hv⟩, hkeep⟩ := kA.get' hs4
     obtain ⟨s3', hs3', ⟨v', hv'⟩, hkeep'⟩ := kB.get' hs4'
     obtain ⟨w, hw⟩ := fixFit_keeps hfu
     obtain ⟨w', hw'⟩ := fixFit_keeps hfu'
-    have hT : AddrShiftAny D t t' := by rw [hw, hw']; exact ⟨hsh.1, hsh.2⟩
+    obtain ⟨z, hz⟩ := evalList1_same hlu
+    obtain ⟨z', hz'⟩ := evalList1_same hlu'
+    have hT : AddrShiftAny D t t' := by rw [hz, hz', hw, hw']; exact ⟨hsh.1, hsh.2⟩
     refine ⟨hT, ?_⟩
     rcases h3.2 i s3 s3' hs3 hs3' with ⟨rfl, _, _⟩ | ⟨hin, hm, hn, hk, hk', hnum, hnum', n, _, ha, ha'⟩
     · have he : s4' = s4.setAddress s4'.pkg.address := by rw [hv, hv']; rfl
       constructor
-      · intro hc
-        obtain ⟨e, hb⟩ := reloc_bytes_unmoved' hshiftI he hc hfu hfu'
-        exact ⟨by rw [e]; rfl, hb⟩
+      · intro hc hlc
+        obtain ⟨e, _⟩ := reloc_bytes_unmoved' hshiftI he hc hfu hfu'
+        have hau : u'.pkg.address = s4'.pkg.address := by rw [e]; rfl
+        have e' : u' = u.setAddress u'.pkg.address := by rw [hau]; exact e
+        have e2 := reloc_list_unmoved e' (fixFit_listsConst hss hfu hlc) hlu hlu'
+        refine ⟨by rw [e2]; rfl, ?_⟩
+        rw [e2, stmtBytes_setAddress]
       · intro hc
         have hfit : RefFitted s4 := stages_refFitted stA hs4
         have hmv := reloc_fixFit_moved_any' hshift he hc hfit (i := i)
         rw [hfu, hfu'] at hmv
         simp only [Outcome.map_ok, Outcome.ok.injEq] at hmv
+        have hnu : u.pkg.additional.isNumeric = true := by
+          obtain ⟨a, hh, m, e1, _⟩ := fixFit_moved_wide_any hshift i hc hfit hfu
+          rw [e1]; rfl
+        have hnu' : u'.pkg.additional.isNumeric = true := by rw [hmv]; exact shiftV_numeric' hnu
+        rw [evalList1_numeric _ _ hnu] at hlu; cases hlu
+        rw [evalList1_numeric _ _ hnu'] at hlu'; cases hlu'
         refine ⟨by rw [hmv]; rfl, ?_⟩
         intro bs hbs
         exact (reloc_bytes_moved_any' hshift he hc hfit hfu hfu' hbs).2
@@ -620,16 +712,22 @@ theorem C18_R1_parsed_code_any {fs : Files} {la lb : List Str} {pa pb : List Stm
       subst e4 e4'
       have hrow : s4.row ∈ Gen.instructions := by
         have := stA.row_mem ht
-        rw [hw] at this; exact this
+        rw [hz, hw] at this; exact this
       have hrow' : s4'.row ∈ Gen.instructions := by
         have := stB.row_mem ht'
-        rw [hw'] at this; exact this
+        rw [hz', hw'] at this; exact this
       rw [fixFit_org _ _ hrow hm hk hnum hn] at hfu
       rw [fixFit_org _ _ hrow' (by rw [hin]; simpa using hm) hk' hnum' (by rw [hin]; simpa using hn)] at hfu'
       cases hfu; cases hfu'
+      -- an ORG statement has no operand field: the list pass leaves it alone
+      have hadd : s4.pkg.additional = .none := stages_org_additional stA hs4 ht hm hk
+      have hadd' : s4'.pkg.additional = .none := by rw [hin]; simpa using hadd
+      rw [evalList1_keep _ _ (by rw [hadd]; intro hs e; cases e) (by rw [hadd]; intro hs e; cases e)] at hlu
+      rw [evalList1_keep _ _ (by rw [hadd']; intro hs e; cases e) (by rw [hadd']; intro hs e; cases e)] at hlu'
+      cases hlu; cases hlu'
       have eadd : t'.pkg.additional = s4.pkg.additional := by rw [hin]; simp
       constructor
-      · intro _
+      · intro _ _
         refine ⟨eadd, ?_⟩
         unfold stmtBytes
         rw [eadd, show t'.pkg.opCode = s4.pkg.opCode by rw [hin]; simp,
@@ -639,17 +737,15 @@ theorem C18_R1_parsed_code_any {fs : Files} {la lb : List Str} {pa pb : List Stm
           rcases hv with ⟨tg, m, hv⟩ | ⟨l, r, op, m, k, hh, mm, nn, hv, _⟩ <;> rw [hv] at hnum <;> cases hnum
         · rw [hn] at hn'; cases hn'
   have hfinal : PW (AddrShiftAny D) A.stmts B.stmts := by
-    have lA := fA.1
-    have lB := fB.1
     refine ⟨by rw [lA, lB, hshift.1], ?_⟩
     intro i t t' ht ht'
-    obtain ⟨s4, hs4, _⟩ := (fixAll_pw stA.hfix).get' ht
+    obtain ⟨s4, hs4, _⟩ := (fixAllL_pw stA.hfix).get' ht
     exact (key i s4 t t' hs4 ht ht').1
   refine ⟨ht, hshift, hfinal, fun i s4 t t' a b c => (key i s4 t t' a b c).2, ?_⟩
   intro j k v hj
   have hB := stB.heval
   rw [ht] at hB
-  exact symtab_reloc_entry_any hshiftI (fixAll_sameAddr stA.hfix) (fixAll_sameAddr stB.hfix)
+  exact symtab_reloc_entry_any hshiftI (fixAllL_sameAddr stA.hfix) (fixAllL_sameAddr stB.hfix)
     hfinal stA.heval hB stA.hfinal stB.hfinal hj
 
 /-- C18-R1 for parsed programs at any origin, the final symbol table entry by entry (the last conjunct of
@@ -681,18 +777,26 @@ theorem C18_R1_parsed_code_mod_any {fs : Files} {la lb : List Str} {pa pb : List
   have hshift := (C18_R1_parsed_code_any hpa hpb hrel hinc hhead stA stB).2.1
   have hshiftI : PW (AddrShiftI D) stA.ss4 stB.ss4 := hshift.mono (fun _ _ => AddrShiftAny.toI)
   obtain ⟨s4', hs4', _⟩ := hshift.get hs4
-  obtain ⟨u, hu, hfu⟩ := (fixAll_ok stA.hfix).2 i s4 hs4
-  obtain ⟨u', hu', hfu'⟩ := (fixAll_ok stB.hfix).2 i s4' hs4'
-  simp only [Nat.zero_add] at hfu hfu'
-  rw [ht] at hu; cases hu
-  rw [ht'] at hu'; cases hu'
+  obtain ⟨x5, _, _, fA⟩ := fixAllL_steps stA.hfix
+  obtain ⟨x5', _, _, fB⟩ := fixAllL_steps stB.hfix
+  obtain ⟨u, t0, hfu, ht0, hlu⟩ := fA i s4 hs4
+  obtain ⟨u', t0', hfu', ht0', hlu'⟩ := fB i s4' hs4'
+  rw [ht] at ht0; cases ht0
+  rw [ht'] at ht0'; cases ht0'
   have hnum := hc.not_numeric
   have he := reloc_ss4_same hpa hpb hrel hinc stA stB hs4 hs4' hnum
+  have hmv := reloc_fixFit_movedMod' hshiftI he hc (i := i)
+  rw [hfu, hfu'] at hmv
+  simp only [Outcome.map_ok, Outcome.ok.injEq] at hmv
+  -- the field holds a number: the list pass leaves the statement alone
+  have hnu : u.pkg.additional.isNumeric = true := by
+    obtain ⟨x, _, e1, _⟩ := fixFit_movedMod_aux hshiftI i hc
+    rw [e1] at hfu; cases hfu; rfl
+  have hnu' : u'.pkg.additional.isNumeric = true := by rw [hmv]; exact shiftVmod_numeric hnu
+  rw [evalList1_numeric _ _ hnu] at hlu; cases hlu
+  rw [evalList1_numeric _ _ hnu'] at hlu'; cases hlu'
   constructor
-  · have hmv := reloc_fixFit_movedMod' hshiftI he hc (i := i)
-    rw [hfu, hfu'] at hmv
-    simp only [Outcome.map_ok, Outcome.ok.injEq] at hmv
-    rw [hmv]; rfl
+  · rw [hmv]; rfl
   · intro bs hbs
     exact (reloc_bytes_movedMod' hshiftI he hc hfu hfu' hbs).2
 
@@ -712,17 +816,25 @@ theorem C18_R1_parsed_code_neg_any {fs : Files} {la lb : List Str} {pa pb : List
   have hshift := (C18_R1_parsed_code_any hpa hpb hrel hinc hhead stA stB).2.1
   have hshiftI : PW (AddrShiftI D) stA.ss4 stB.ss4 := hshift.mono (fun _ _ => AddrShiftAny.toI)
   obtain ⟨s4', hs4', _⟩ := hshift.get hs4
-  obtain ⟨u, hu, hfu⟩ := (fixAll_ok stA.hfix).2 i s4 hs4
-  obtain ⟨u', hu', hfu'⟩ := (fixAll_ok stB.hfix).2 i s4' hs4'
-  simp only [Nat.zero_add] at hfu hfu'
-  rw [ht] at hu; cases hu
-  rw [ht'] at hu'; cases hu'
+  obtain ⟨x5, _, _, fA⟩ := fixAllL_steps stA.hfix
+  obtain ⟨x5', _, _, fB⟩ := fixAllL_steps stB.hfix
+  obtain ⟨u, t0, hfu, ht0, hlu⟩ := fA i s4 hs4
+  obtain ⟨u', t0', hfu', ht0', hlu'⟩ := fB i s4' hs4'
+  rw [ht] at ht0; cases ht0
+  rw [ht'] at ht0'; cases ht0'
   have he := reloc_ss4_same hpa hpb hrel hinc stA stB hs4 hs4' hc.not_numeric
+  have hmv := reloc_fixFit_movedNeg' hshiftI he hc (i := i)
+  rw [hfu, hfu'] at hmv
+  simp only [Outcome.map_ok, Outcome.ok.injEq] at hmv
+  -- the field holds a number: the list pass leaves the statement alone
+  have hnu : u.pkg.additional.isNumeric = true := by
+    obtain ⟨x, _, e1, _⟩ := fixFit_movedNeg_aux (D := D) hshiftI i hc
+    rw [e1] at hfu; cases hfu; rfl
+  have hnu' : u'.pkg.additional.isNumeric = true := by rw [hmv]; exact shiftVneg_numeric hnu
+  rw [evalList1_numeric _ _ hnu] at hlu; cases hlu
+  rw [evalList1_numeric _ _ hnu'] at hlu'; cases hlu'
   constructor
-  · have hmv := reloc_fixFit_movedNeg' hshiftI he hc (i := i)
-    rw [hfu, hfu'] at hmv
-    simp only [Outcome.map_ok, Outcome.ok.injEq] at hmv
-    rw [hmv]; rfl
+  · rw [hmv]; rfl
   · intro bs hbs
     exact (reloc_bytes_movedNeg' hshiftI he hc hfu hfu' hbs).2
 
